@@ -6,6 +6,7 @@ import (
 	"sync/atomic"
 
 	"go.mongodb.org/mongo-driver/bson"
+	"go.mongodb.org/mongo-driver/mongo"
 	"go.mongodb.org/mongo-driver/mongo/options"
 
 	"verif/internal/par"
@@ -239,6 +240,10 @@ func init() {
 			name string
 			seq  []int
 			del  []int // positions deleted after all inserts
+			// indexed: a partial unique, a plain and a compound index exist whose keys equal sort specifications (results must
+			// not depend on which indexes exist); reload: the collection went through the store's encoder and decoder;
+			// descID: the _id values descend in insertion order (natural order is not _id order)
+			indexed, reload, descID bool
 		}
 		var bigs []big
 		for _, n := range []int{13, 20, 40} {
@@ -247,14 +252,18 @@ func init() {
 				for i := 0; i < n; i++ {
 					seq = append(seq, (i*stride)%len(pool))
 				}
-				bigs = append(bigs, big{fmt.Sprintf("n=%d stride=%d", n, stride), seq, nil})
-				bigs = append(bigs, big{fmt.Sprintf("n=%d stride=%d after deleting positions 0,3,%d", n, stride, n-2), seq, []int{0, 3, n - 2}})
+				bigs = append(bigs, big{name: fmt.Sprintf("n=%d stride=%d", n, stride), seq: seq})
+				bigs = append(bigs, big{name: fmt.Sprintf("n=%d stride=%d after deleting positions 0,3,%d", n, stride, n-2), seq: seq, del: []int{0, 3, n - 2}})
+				bigs = append(bigs, big{name: fmt.Sprintf("n=%d stride=%d with indexes", n, stride), seq: seq, indexed: true})
+				bigs = append(bigs, big{name: fmt.Sprintf("n=%d stride=%d descending _id, reloaded", n, stride), seq: seq, reload: true, descID: true})
+				bigs = append(bigs, big{name: fmt.Sprintf("n=%d stride=%d descending _id, with indexes, after deleting 0,3,%d, reloaded", n, stride, n-2), seq: seq, del: []int{0, 3, n - 2}, indexed: true, reload: true, descID: true})
 			}
 		}
 		for ci := range colls {
 			if len(colls[ci]) >= 2 {
-				bigs = append(bigs, big{"small after deleting position 0", append([]int{0}, colls[ci]...), []int{0}})
-				bigs = append(bigs, big{"small after deleting position 1", append(append([]int{colls[ci][0]}, 0), colls[ci][1:]...), []int{1}})
+				bigs = append(bigs, big{name: "small after deleting position 0", seq: append([]int{0}, colls[ci]...), del: []int{0}})
+				bigs = append(bigs, big{name: "small after deleting position 1", seq: append(append([]int{colls[ci][0]}, 0), colls[ci][1:]...), del: []int{1}})
+				bigs = append(bigs, big{name: "small descending _id, with indexes, reloaded", seq: colls[ci], indexed: true, reload: true, descID: true})
 			}
 		}
 		par.For(len(bigs), r.TooMany, func(bi int) {
@@ -263,8 +272,29 @@ func init() {
 			defer w.Close()
 			coll := w.C("d", "c")
 			var docs []bson.D
+			idOf := func(pos int) int32 {
+				if b.descID {
+					return int32(len(b.seq) - pos)
+				}
+				return int32(pos)
+			}
+			if b.indexed {
+				// only the document inserted first falls under the unique index
+				first := bD("_id", idOf(0))
+				for _, m := range []mongo.IndexModel{
+					{Keys: bD("a", int32(1)), Options: options.Index().SetUnique(true).SetPartialFilterExpression(first)},
+					{Keys: bD("b", int32(1))},
+					{Keys: bD("a", int32(1), "b", int32(-1))},
+					{Keys: bD("b", int32(-1), "_id", int32(1)), Options: options.Index().SetUnique(true)},
+				} {
+					if _, err := coll.Indexes().CreateOne(w.Ctx, m); err != nil {
+						r.Broken("index: %v", err)
+						return
+					}
+				}
+			}
 			for pos, k := range b.seq {
-				d := append(bson.D{{Key: "_id", Value: int32(pos)}}, pool[k]...)
+				d := append(bson.D{{Key: "_id", Value: idOf(pos)}}, pool[k]...)
 				docs = append(docs, d)
 				if _, err := coll.InsertOne(w.Ctx, d); err != nil {
 					r.Broken("insert: %v", err)
@@ -274,10 +304,17 @@ func init() {
 			gone := map[int]bool{}
 			for _, p := range b.del {
 				gone[p] = true
-				if res, err := coll.DeleteOne(w.Ctx, bD("_id", int32(p))); err != nil || res.DeletedCount != 1 {
+				if res, err := coll.DeleteOne(w.Ctx, bD("_id", idOf(p))); err != nil || res.DeletedCount != 1 {
 					r.Broken("delete: %v", err)
 					return
 				}
+			}
+			if b.reload {
+				if err := w.Reload(); err != nil {
+					r.Broken("reload: %v", err)
+					return
+				}
+				coll = w.C("d", "c")
 			}
 			var live []bson.D
 			for pos, d := range docs {
@@ -311,7 +348,7 @@ func init() {
 					atomic.AddInt64(&bigChecks, 1)
 					if err != nil || idsOf(got) != idsOf(full[lo:hi]) {
 						r.Violation("order:larger-or-deleted-from", fmt.Sprintf("collection (%s): Find({}).sort(%s).skip(%d).limit(%d) returned _ids [%s] (err %v), expected [%s]", b.name, J(spec), win[0], win[1], idsOf(got), err, idsOf(full[lo:hi])),
-							map[string]interface{}{"collection_sequence": b.seq, "deleted_positions": b.del, "sort": J(spec), "skip": win[0], "limit": win[1]})
+							map[string]interface{}{"collection_sequence": b.seq, "deleted_positions": b.del, "indexed": b.indexed, "reloaded": b.reload, "descending_id": b.descID, "sort": J(spec), "skip": win[0], "limit": win[1]})
 					}
 				}
 			}
